@@ -68,6 +68,16 @@ def download(chk, F):
                    "persist only after %s succeeded (`?` consumed): %s" % (suffix, what),
                    "NamedTempFile::persist can be reached without the success edge of %s: the cache file could be replaced "
                    "by an incomplete or unsynced download" % suffix)
+    # the body is validated as complete JSON read back from the temp file (a close-delimited 200 that is cut short, or an
+    # HTML page served with status 200, passes every transport-level test above)
+    dv = None
+    for sfx in ("serde_json::de::from_reader", "serde_json::from_reader", "serde_json::de::from_slice", "serde_json::de::from_str"):
+        dv = dv or try_guard(fn, guards, sfx)
+    okv = dv is not None and "tempfile_in" in ap_str(dv[1])
+    chk.decide(okv, "persist-gates", FK, "body-is-complete-json", where,
+               "persist only after the downloaded temp file parsed as JSON to its end",
+               "the downloaded body is not validated before it replaces the cache: a 200 response without Content-Length that is cut after k bytes "
+               "(or a captive-portal page) is renamed over the previous file")
     # status == 200
     ok200 = False
     for g in guards:
